@@ -24,6 +24,26 @@ ApproxClauses(e) ==
                \cup (IF ~e.near_lo /\ e.near_hi THEN {"C19.only_high_near"} ELSE {})
           ELSE {})
 
+\* C13, relative_to where the quotients round: the documented bounds [(x-b)/b, (y-a)/a] with x-b exact, so each
+\* bound must be the correctly rounded quotient:  |f * den - num| <= halfulp(f) * den
+HalfUlp(f) == IF f.m = <<>> THEN DyZero ELSE Dy(BigOfInt(1), f.e + BigBits(BigOfLimbs(1, f.m)) - 54)
+RoundedQuot(f, num, den) ==
+    /\ f.tag = "fin"
+    /\ DyLe(DyAbs(DySub(DyMulInt(FDy(f), den), DyOfInt(num))), DyMulInt(HalfUlp(f), den))
+RelRoundFailed(e) ==
+    IF e.op # "iv.relative_round" THEN {}
+    ELSE IF RelPanics(e.a, e.b) THEN {c \in {"C13.relative_panic"} : e.out.tag # "panic"}
+    ELSE IF e.out.tag # "ok" THEN {"C13.relative_total"}
+    ELSE LET r == e.out.iv
+             kind == IF e.a.k = "two" /\ e.b.k = "two" THEN "two" ELSE IF HasHi(e.a) /\ HasLo(e.b) THEN "low" ELSE "up" IN
+         {c \in {"C13.relative_kind"} : r.k # kind}
+         \cup {c \in {"C13.relative_correctly_rounded"} : r.k = kind /\
+                 ~(/\ (kind # "low" => RoundedQuot(r.lo, e.a.lo - e.b.hi, e.b.hi))
+                   /\ (kind # "up"  => RoundedQuot(r.hi, e.a.hi - e.b.lo, e.b.lo)))}
+RelRoundClauses(e) ==
+    IF e.op # "iv.relative_round" THEN {}
+    ELSE IF RelPanics(e.a, e.b) THEN {"C13.relative_panic"} ELSE {"C13.relative_kind", "C13.relative_correctly_rounded"}
+
 VARIABLES l, cov, nbad
 vars == <<l, cov, nbad>>
 
@@ -34,8 +54,8 @@ Bump(c, cs) == [x \in DOMAIN c \cup cs |->
 
 Next == /\ l <= Len(Rec)
         /\ LET e  == Rec[l]
-               f  == Failed(e) \cup ApproxExact(e)
-               cs == Clauses(e) \cup ApproxClauses(e) IN
+               f  == IF e.op = "iv.relative_round" THEN RelRoundFailed(e) ELSE Failed(e) \cup ApproxExact(e)
+               cs == IF e.op = "iv.relative_round" THEN RelRoundClauses(e) ELSE Clauses(e) \cup ApproxClauses(e) IN
              /\ (f # {}) => PrintT("BAD " \o ToJson([id |-> e.id, failed |-> f]))
              /\ nbad' = nbad + (IF f = {} THEN 0 ELSE 1)
              /\ cov' = Bump(cov, cs)
